@@ -147,8 +147,13 @@ class StoreRun:
     def _layout(self, op):
         lay = op["layout"]
         names = lay["names"]
-        bm = bins_frame(names, lay["edges"])
-        lengths = [e[-1] for e in lay["edges"]]
+        edges = lay["edges"]
+        if isinstance(edges, str):
+            # compact form "uniform:<nbins>:<width>" for one chromosome (large bin tables)
+            _, nb, w = edges.split(":")
+            edges = [[k * int(w) for k in range(int(nb) + 1)]]
+        bm = bins_frame(names, edges)
+        lengths = [e[-1] for e in edges]
         return names, lengths, bm
 
     def _inject_f1(self, chunk, fault, nbins):
@@ -158,8 +163,12 @@ class StoreRun:
         sub = fault["sub"]
         if sub == "oob":
             rec = (min(nbins - 1, 0), nbins)
+        elif sub == "oob1":
+            rec = (nbins, nbins)
         elif sub == "neg":
             rec = (-1, 0)
+        elif sub == "neg2":
+            rec = (nbins - 1, -1)
         elif sub == "tril":
             rec = (nbins - 1, 0)
         elif sub == "dup":
@@ -175,13 +184,16 @@ class StoreRun:
         return ch
 
     def _chunk_obj(self, ch, dtypes, as_dict):
-        d = {"bin1_id": np.asarray(ch["bin1_id"], dtype=np.int64),
-             "bin2_id": np.asarray(ch["bin2_id"], dtype=np.int64)}
+        idt = _dt(self.cur_op.get("id_dtype", "int64")) if getattr(self, "cur_op", None) else np.int64
+        d = {"bin1_id": np.asarray(ch["bin1_id"], dtype=idt),
+             "bin2_id": np.asarray(ch["bin2_id"], dtype=idt)}
         for col, dt in dtypes.items():
             d[col] = np.asarray(ch[col], dtype=_dt(dt))
         return d if as_dict else pd.DataFrame(d)
 
     def _iter_chunks(self, chunks, dtypes, as_dict, f2_at, frame_holder=None):
+        wide = self.cur_op.get("wide_chunk") if getattr(self, "cur_op", None) else None
+
         def gen():
             if frame_holder is not None:
                 frame_holder.append(sys._getframe(1))
@@ -189,6 +201,11 @@ class StoreRun:
                 if f2_at == k:
                     self.fired("F2")
                     raise InjectedIOError(5, "injected: input iterator failed before chunk %d" % k)
+                if wide is not None and wide["chunk"] == k:
+                    ch = {c: list(v) for c, v in ch.items()}
+                    ch["count"][wide["row"]] = wide["value"]
+                    yield self._chunk_obj(ch, dict(dtypes, count=wide["dtype"]), as_dict)
+                    continue
                 yield self._chunk_obj(ch, dtypes, as_dict)
             if f2_at == len(chunks):
                 self.fired("F2")
@@ -219,11 +236,12 @@ class StoreRun:
         self._open_count = 0
         self._task_count = 0
         target = fault["open"] if fault is not None and fault.get("kind") == "F4" else None
+        width = fault.get("width", 1) if target is not None else 0
 
         def hook(norm, mode):
             k = self._open_count
             self._open_count += 1
-            if k == target:
+            if target is not None and target <= k < target + width:
                 self.fired("F4")
                 raise InjectedIOError(13, "injected: cannot open %s (%s)" % (norm, mode))
 
@@ -350,6 +368,8 @@ class StoreRun:
         if un:
             kw.update(ordered=False, mergebuf=un["mergebuf"], max_merge=un["max_merge"],
                       ensure_sorted=un["ensure_sorted"])
+            if un.get("delete_temp") is False:
+                kw["delete_temp"] = False
         else:
             kw.update(ordered=True)
 
@@ -363,7 +383,13 @@ class StoreRun:
         self._arm_open_fault(fault)
         self._arm_snapshots(fid)
         exc, tracer = self._call(lambda: cooler.create_cooler(uri, binsdf, pixels, **kw), fault)
-        if holder is not None and exc is None:
+        if holder is not None and exc is None and un.get("delete_temp") is False:
+            left = sorted(glob.glob(os.path.join(self.S, "*.multi.cool")))
+            if not left:
+                self.stat("delete_temp-false-but-no-temp-file")
+            for p in left:
+                os.remove(p)
+        elif holder is not None and exc is None:
             # O-temp (C06): no temporary file outlives a successful run, even while
             # something still references the frames of the call (held here).
             left = sorted(glob.glob(os.path.join(self.S, "*.multi.cool")))
@@ -387,6 +413,23 @@ class StoreRun:
         node = self._fresh(exp, prop)
         fs_ok = fs_old.clone()
         self._place(fs_ok, fid, path, node, mode)
+        if op.get("wide_chunk") and (fault is None) and form in ("iter", "iterdict"):
+            # a value that does not fit the stored dtype must be refused, never stored clamped
+            self.stat("wide-chunk-cases")
+            if exc is None:
+                self.violate("C01", "O-overflow", ["chunk %d carried %s value %d for an int32 column and the "
+                                                   "creation succeeded (stored value cannot be the given one)" % (
+                                                       op["wide_chunk"]["chunk"], op["wide_chunk"]["dtype"],
+                                                       op["wide_chunk"]["value"])])
+                fs_x = fs_old.clone()
+                self._place(fs_x, fid, path, self._fresh(INDET, prop), mode)
+                self._examine_snapshots(fs_old, fid, path, mode, None, True)
+                self._resolve([fs_x], [fid], None, None, True)
+                return exc, tracer
+            self._examine_snapshots(fs_old, fid, path, mode, None, True)
+            self._resolve(self._failed_variants(fs_old, fid, path, mode) + [fs_old], [fid],
+                          {"kind": "F1"}, (fid, path), held_before)
+            return exc, tracer
         if fault is None or fault["kind"] == "count-lines":
             if exc is not None:
                 # creation of valid input must succeed
@@ -1326,6 +1369,8 @@ def _op_coarsen(self, op):
             kw["agg"] = dict(agg)
         if mode != "a" or op.get("explicit_mode"):
             kw["mode"] = mode
+        if op.get("lock_none"):
+            kw["lock"] = None   # explicitly no writer lock (as legacy_zoomify's Python API forwards)
 
         def call():
             cooler.coarsen_cooler(suri, uri, k, **kw)
@@ -1432,10 +1477,36 @@ def _op_zoomify(self, op):
         def call():
             cooler.zoomify_cooler(uris if len(uris) > 1 or op.get("as_list") else uris[0], out, resolutions, **kw)
     fs_old = self.fs.clone()
-    self._arm_open_fault(None)
+    zfault = op.get("fault")
+    self._arm_open_fault(zfault)
     self._arm_snapshots(None)
     nconf0 = len(self.sim.flock_conflicts)
-    exc, tracer = self._call(call, None)
+    exc, tracer = self._call(call, zfault)
+    if zfault is not None and exc is not None and exc[0] not in ("SimDeadlock", "StepLimit"):
+        # the run stopped: a file that still passes for multi-resolution must hold every
+        # requested level, complete
+        self.stat("zoomify-stopped-by-fault")
+        from cooler import fileops as _fo
+        try:
+            with warnings.catch_warnings():
+                warnings.simplefilter("ignore")
+                tagged = os.path.exists(out) and _fo.is_multires_file(out)
+                if tagged and refuse is None:
+                    got = _fo.list_coolers(out)
+                    want = sorted("/resolutions/%s" % k for k in resgrp.children)
+                    if sorted(got) != want:
+                        self.violate("C09", "O-multires-incomplete",
+                                     ["a zoomify run stopped by a fault left a file recognised as multi-resolution "
+                                      "that holds %r instead of %r" % (got, want)])
+        except Exception as e:
+            self.violate("C09", "O-multires-incomplete", ["inspection raised %s" % type(e).__name__])
+        fs_new = fs_old.clone()
+        fs_new.files.pop(fid, None)
+        if os.path.exists(out):
+            os.remove(out)
+        self.fs = fs_new
+        self.sim.deadlock = None
+        return exc, tracer
     if len(self.sim.flock_conflicts) > nconf0:
         self.violate("C09", "O-sched-flock",
                      ["simulated HDF5 file-lock conflict: %r" % (self.sim.flock_conflicts[nconf0],)])
@@ -1534,6 +1605,11 @@ def _op_scool(self, op):
             b = base_bins.copy()
             for k, v in (cells[key].get("bin_extra") or {}).items():
                 b[k] = np.asarray(v, dtype=float)
+            how = (op.get("bins_index") or {}).get(key, "default")
+            if how == "offset":
+                b.index = np.arange(len(b)) + 1000      # row labels carry no meaning
+            elif how == "permuted":
+                b.index = np.arange(len(b))[::-1]
             bins_arg[key] = b
     else:
         bins_arg = base_bins
@@ -1541,9 +1617,17 @@ def _op_scool(self, op):
     kw = dict(columns=columns, dtypes=dtypes_arg, metadata=op.get("metadata"), assembly=op.get("assembly"),
               ordered=True, symmetric_upper=op["symmetric"], mode=mode)
     fs_old = self.fs.clone()
+    keep_cells = {}
     if mode == "a" and fid in self.fs.files:
         root = self.fs.files[fid]
-        if root.coll is not None or root.dirty or "cells" in root.children or root.tag:
+        if root.tag == "scool" and not root.dirty and root.coll is None and fault is None:
+            cg0 = root.children.get("cells")
+            if cg0 is not None and cg0[0] == "h":
+                if not all(l[0] == "h" and isinstance(l[1].coll, Coll) for l in cg0[1].children.values()):
+                    raise Skip("the existing single-cell file holds an incomplete cell")
+                keep_cells = dict(cg0[1].children)
+            self.stat("scool-appended-to-scool")
+        elif root.coll is not None or root.dirty or "cells" in root.children or root.tag:
             raise Skip("append a scool only to a file whose root is free")
     self._arm_open_fault(fault if fault and fault.get("kind") == "F4" else None)
     self._arm_snapshots(fid)
@@ -1556,6 +1640,11 @@ def _op_scool(self, op):
         root = fs.files[fid]
         root.tag = "scool"
         cg = Node()
+        # cells of the earlier single-cell file keep their own (hard-linked) tables
+        for k0 in keep_cells:
+            kept = fs.lookup(fid, "/cells/" + k0)
+            if kept is not None:
+                cg.children[k0] = ("h", kept)
         root.children["cells"] = ("h", cg)
         for key in order[:upto]:
             cg.children[key.split("/")[-1]] = ("h", self._fresh(exp[key], "C17"))
@@ -1581,7 +1670,8 @@ def _op_scool(self, op):
             return exc, tracer
         fs_ok = build(len(order))
         self._resolve([fs_ok], [fid], None, None, False)
-        self._check_scool(fid, order, exp)
+        self._check_scool(fid, order, exp, extra_cells=[k for k in keep_cells
+                                                         if k not in {o.split("/")[-1] for o in order}])
     else:
         k = order.index(fault_cell) if fault_cell in order else 0
         if exc is None and fault["kind"] in ("F1", "F2"):
@@ -1615,7 +1705,7 @@ def _op_scool(self, op):
     return exc, tracer
 
 
-def _check_scool(self, fid, order, exp):
+def _check_scool(self, fid, order, exp, extra_cells=()):
     from cooler import fileops
     from cooler.util import natsorted
 
@@ -1626,7 +1716,7 @@ def _check_scool(self, fid, order, exp):
         try:
             if not fileops.is_scool_file(fpath):
                 errs.append("is_scool_file is False")
-            want = natsorted(["/cells/" + k.split("/")[-1] for k in order])
+            want = natsorted(["/cells/" + k.split("/")[-1] for k in order] + ["/cells/" + k for k in extra_cells])
             got = fileops.list_scool_cells(fpath)
             foreign = [p for p in self.fs.coolers(fid) if not p.startswith("/cells/")]
             if foreign:
@@ -1678,10 +1768,14 @@ def _op_rename(self, op):
         raise Skip("renaming would create duplicate names")
     uri = uri_of(path, self.fpath(fid), op.get("slash", True))
     key = (fid, path)
-    held = self.live.get(key)
-    if op.get("held") and held is not None and held[1] == node.id:
-        clr = held[0]
+    # long-lived objects on this path (possibly stale: the file may have been renamed through
+    # another handle since they were opened; re-created paths invalidate them)
+    handles = [h for h in self.live.get(key, []) if h[1] == node.id]
+    if op.get("held") and handles:
+        clr = handles[0][0]
         self.stat("rename-via-held-object")
+        if len(handles) > 1 or handles[0][2] != tuple(node.coll.chromnames):
+            self.stat("rename-via-stale-held-object")
     else:
         clr = cooler.Cooler(uri)
     # what the old names returned, for "regions addressed by a new name return what the old name returned"
@@ -1700,7 +1794,8 @@ def _op_rename(self, op):
     n2.coll.chromnames = new
     n2.prop = "C18"
     n2.verified = False
-    self.live[key] = (clr, n2.id, n2.coll)
+    if not op.get("expect_failure"):
+        self.live[key] = [h for h in handles if h[0] is not clr] + [(clr, n2.id, tuple(old))]
     # cells of a single-cell file share one chromosome table: renaming through one cell renames
     # all of them; the only consistent outcome is that every cell then uses the new names
     siblings = []
@@ -1716,6 +1811,21 @@ def _op_rename(self, op):
     self._arm_open_fault(None)
     self._arm_snapshots(None)
     exc, tracer = self._call(lambda: cooler.rename_chroms(clr, rmap), None)
+    if op.get("expect_failure"):
+        # a rename that cannot be carried out must leave the collection as it was
+        if exc is None:
+            self.stat("unstorable-name-accepted")
+            self._resolve([fs_new, self.fs], [fid], None, None, False)
+            return exc, tracer
+        self.stat("rename-refused")
+        node.verified = False
+        node.prop = "C18"
+        errs = oracles.check_read(uri, node.coll, "after a refused rename: ", deep=False)
+        if errs:
+            self.violate("C18", "O-rename-failed-intact", errs)
+            node.coll = INDET
+        self._resolve([self.fs], [fid], None, None, False)
+        return exc, tracer
     if exc is not None:
         self.violate("C18", "op-raised", ["rename_chroms raised %s: %s" % exc])
         self._resolve([self.fs, fs_new], [fid], None, None, False)
@@ -1774,7 +1884,8 @@ def _op_hold(self, op):
     node = self.fs.lookup(fid, path)
     if node is None or not isinstance(node.coll, Coll):
         raise Skip("no collection")
-    self.live[(fid, path)] = (cooler.Cooler(uri_of(path, self.fpath(fid))), node.id, node.coll)
+    self.live.setdefault((fid, path), []).append(
+        (cooler.Cooler(uri_of(path, self.fpath(fid))), node.id, tuple(node.coll.chromnames)))
     return None, None
 
 
